@@ -102,7 +102,8 @@ def r2_process_event(ctx):
                    "effect on the scope stack (pushes, deferred pop, pops) must be %s, is %s" % (want, (pushes, pend, pops)), config=cfg)
             if var in ("Start", "Empty", "End"):
                 rv = describe_ret(r, 1)[0]
-                ctx.ob("R2", "process_event[%s]:passes-event" % var, rv[:2] == ("Ok", var), "the event is returned unchanged (%s)" % (rv,), config=cfg)
+                same_param = strip_wrappers(r)[0] == "arg" and strip_wrappers(r)[2] == "event"
+                ctx.ob("R2", "process_event[%s]:passes-event" % var, rv[:2] == ("Ok", var) or same_param, "the event is returned unchanged (%s)" % (rv if not same_param else "the parameter itself",), config=cfg)
         ctx.floor("R2", "rows of process_event", len(rows), 5, config=cfg)
         # the deferred pop runs before the inner read
         entries = [ctx.body(F, "reader::ns_reader::NsReader::read_event_impl", "R2")]
@@ -154,37 +155,56 @@ def r2_process_event(ctx):
 def r3_resolver(ctx):
     for cfg, F in ctx.facts.items():
         clo = F.closure("quick_xml::name::NamespaceResolver::resolve_prefix::{closure#0}")
-        if clo is None:
-            ctx.ob("R3", "anchor:resolve_prefix closure", False, "anchor-missing", config=cfg)
-        else:
-            rows = 0
+        rpb = F.body("name::NamespaceResolver::resolve_prefix")
+        # one step of the search over the bindings: the predicate closure of find_map, or the body of an explicit loop
+        steps = []
+        if clo is not None and any(name_is(callee_of(t)[0] or "", "NamespaceEntry::prefix") for _, t in clo.calls()):
             for p in ctx.paths(clo):
-                if ends(p) != "ret":
+                if ends(p) == "ret":
+                    r = ret_of(p)
+                    steps.append((p, "skip" if r[0] == "agg" and r[2] == "None" else "value", r[3][0] if r[0] == "agg" and r[2] == "Some" and r[3] else r, clo))
+        elif rpb is not None:
+            for p in ctx.paths(rpb):
+                hd = [i for i, e in enumerate(p) if e[0] == "head"]
+                if not hd:
                     continue
+                seg = p[hd[0]:]
+                item = [e for e in seg if e[0] == "switch" and e[2][0] == "discr" and call_is(e[2][1], "next")]
+                if not item or item[-1][3] != 1:
+                    continue  # exhausted: checked below
+                if ends(p) == "loop":
+                    steps.append((seg, "skip", None, None))
+                elif ends(p) == "ret":
+                    steps.append((seg, "value", ret_of(p), None))
+        if not steps:
+            ctx.ob("R3", "anchor:resolve_prefix closure", False, "anchor-missing: neither a find_map predicate nor a loop over the bindings was recognised in resolve_prefix", config=cfg)
+        else:
+            def is_var(t, nm, cb):
+                if cb is not None:
+                    return upvar_of(cb, t) == nm
+                t0 = strip_wrappers(t)
+                return t0[0] == "arg" and t0[2] == nm
+            rows = 0
+            for p, kind, v, cb in steps:
                 rows += 1
                 bp = decision_on(p, lambda t: t[0] == "discr" and call_is(t[1], "NamespaceEntry::prefix"))
-                qp = decision_on(p, lambda t: t[0] == "discr" and upvar_of(clo, t[1]) == "prefix")
-                ud = decision_on(p, lambda t: upvar_of(clo, t) == "use_default")
+                qp = decision_on(p, lambda t: t[0] == "discr" and is_var(t[1], "prefix", cb))
+                ud = decision_on(p, lambda t: is_var(t, "use_default", cb))
                 differ = None
                 for e in p:
                     if e[0] == "switch" and e[2][0] == "call" and name_is(e[2][2], "ne", "eq"):
                         differ = (name_is(e[2][2], "ne")) == (e[3] != 0)
                 empty = decision_on(p, lambda t: t[0] == "bin" and t[1] == "Eq" and ends_with_fields(t[2], "value_len") and t[3] == ("c", "usize", 0))
-                r = ret_of(p)
-                if r[0] == "agg" and r[2] == "None":
+                if kind == "skip":
                     out = "skip"
-                elif r[0] == "agg" and r[2] == "Some":
-                    v = r[3][0]
-                    if v[0] == "agg" and v[2] == "Unbound":
-                        out = "Unbound"
-                    elif call_is(v, "NamespaceEntry::namespace"):
-                        out = "entry-namespace"
-                    elif call_is(v, "maybe_unknown") and upvar_of(clo, v[3][0]) == "prefix":
-                        out = "unknown(prefix)"
-                    else:
-                        out = sym.show(v, 2)
+                elif v[0] == "agg" and v[2] == "Unbound":
+                    out = "Unbound"
+                elif call_is(v, "NamespaceEntry::namespace"):
+                    out = "entry-namespace"
+                elif call_is(v, "maybe_unknown") and is_var(v[3][0], "prefix", cb):
+                    out = "unknown(prefix)"
                 else:
-                    out = sym.show(r, 2)
+                    out = sym.show(v, 2)
                 # reference (DESIGN.md A.6)
                 if bp == 0 and qp == 0:
                     want = "entry-namespace" if ud not in (0, None) else ("Unbound" if ud == 0 else "?use_default untested")
@@ -208,10 +228,16 @@ def r3_resolver(ctx):
                 if ends(p) != "ret":
                     continue
                 names = call_names(p)
-                ok = any(x.endswith("rev") for x in names) and any(x.endswith("find_map") for x in names)
-                ctx.ob("R3", "resolve_prefix:innermost-first", ok, "bindings are searched from the innermost (iter().rev().find_map): %s" % names, config=cfg)
+                ok = any(x.endswith("rev") for x in names) and (any(x.endswith("find_map") for x in names) or any(x.endswith("next") for x in names))
+                ctx.ob("R3", "resolve_prefix:innermost-first", ok, "bindings are searched from the innermost (iter().rev(), by find_map or by a loop): %s" % names, config=cfg)
                 r = ret_of(p)
                 found = decision_on(p, lambda t: t[0] == "discr" and call_is(t[1], "find_map"))
+                if found is None and any(x.endswith("next") for x in names):
+                    # explicit loop: the exit after the iterator is exhausted is the fallback; returns from inside the loop are rows above
+                    nx = [e for e in p if e[0] == "switch" and e[2][0] == "discr" and call_is(e[2][1], "next")]
+                    if nx and nx[-1][3] == 0:
+                        ctx.ob("R3", "resolve_prefix:exhausted", call_is(r, "maybe_unknown"), "no binding found falls back to maybe_unknown(prefix): returns %s" % sym.show(r, 3)[:80], config=cfg)
+                    continue
                 if found == 0:
                     ctx.ob("R3", "resolve_prefix:exhausted", call_is(r, "maybe_unknown"), "no binding found falls back to maybe_unknown(prefix): returns %s" % sym.show(r, 3)[:80], config=cfg)
                 elif found == 1:
